@@ -796,6 +796,18 @@ class SymEnv:
     def note(self, key, n=1):
         self.stats.notes[key] = self.stats.notes.get(key, 0) + n
 
+    def holds(self, cond):
+        """True iff cond is implied by the path condition (no forking, not a check site)."""
+        if isinstance(cond, bool):
+            return cond
+        return self._check(z3.Not(zof(cond))) == z3.unsat
+
+    def possible(self, cond):
+        """True iff cond is consistent with the path condition (no forking)."""
+        if isinstance(cond, bool):
+            return cond
+        return self._check(zof(cond)) == z3.sat
+
     def obs(self, *items):
         self.log.append(items)
 
@@ -929,6 +941,12 @@ class ConcreteEnv:
 
     def note(self, key, n=1):
         pass
+
+    def holds(self, cond):
+        return bool(cond)
+
+    def possible(self, cond):
+        return bool(cond)
 
     def obs(self, *items):
         self.log.append(items)
